@@ -22,8 +22,9 @@ CLAIMED["C19"] = dict(
     technique="Coq proof over tables regenerated from chokan.el + correspondence against the elisp source run by a purpose-built evaluator",
     text="Kernel-checked theorems: every one of the 259 table spellings types to its kana (computed over the regenerated table), conversion terminates for every input (fuel S|s| suffices, "
          "no empty key), characters in no key pass through in order, a doubled consonant yields っ + the rest, hira-to-kata is character-wise and maps exactly the table kana. "
-         "The three defuns are executed from chokan.el's text by a mini elisp evaluator and compared with the model on exhaustive short strings and random strings. Idempotence is checked on every explored input but not proved in general.",
-    note="partial: idempotence has no general proof (tested exhaustively on strings up to length 4/5 over a reduced alphabet); Emacs is absent, so the evaluator /verif/tools/elisp_mini.py (reproduces chokan-tests.el) is trusted to stand in for it.",
+         "conversion is idempotent on its own output for EVERY input (C19_idempotent: induction over the engine, resting on two facts computed on the regenerated table - no value is empty, the characters of every value and っ occur in no key and are no doubling consonant). "
+         "The three defuns are executed from chokan.el's text by a mini elisp evaluator and compared with the model on exhaustive short strings and random strings.",
+    note="full for the modelled engine; Emacs is absent, so the evaluator /verif/tools/elisp_mini.py (reproduces chokan-tests.el) is trusted to stand in for it when the model is compared with chokan.el's text. Trusted: Coq kernel, translator gen_elisp.",
     ref="6/C19")
 CLAIMED["C04"] = dict(
     technique="Coq proof (invariant + refinement to a key set, all admissible free-slot choices) + step-refinement correspondence with the implementation's own choices",
@@ -100,12 +101,12 @@ CLAIMED["C11"] = dict(
     ref="6/C11")
 CLAIMED["C18"] = dict(
     technique="Coq proof (parser postconditions by induction over PEG interpretations, converter totality and emitted-line round trip, finite okurigana/conjugation table facts by computation) + model-vs-implementation correspondence on the converters compiled from source",
-    text="Kernel-checked theorems: the SKK line parser returns exactly the written reading / okuri letters / words of a well-formed line (C18_skk_faithful); for ANY line without newline that the noun, jinmei, tankan "
+    text="Kernel-checked theorems: the SKK line parser returns exactly the written reading / okuri letters / words of a well-formed line (C18_skk_faithful) and the notes parser exactly the written structure of a well-formed notes line - all tags, fixed/class okuri, headers, notes, derived / okuri-nasi / bare candidates (C18_notes_faithful); for ANY line without newline that the noun, jinmei, tankan "
          "and notes parsers accept, every emitted entry is accepted by the dictionary text format and reads back as the same reading, written form and speech (C18_*_line_to_dictionary, via parser postconditions C18_parse_note_wf); "
          "the notes converter returns entries or takes its explicit unsupported-conjugation rejection, nothing else (C18_notes_total, C18_notes_fail_only_unsupported); every supported (class,row) except ワ行上二 conjugates "
          "in chokan-dic to a non-empty set with the row's core forms, okurigana beginning in the row (C18_base_verb_conjugates; the exception is proved: C18_base_verb_refuted, known finding F19). "
          "All four parsers/converters are compiled from the repository into the harness and compared with the models on generated well-formed SKK and notes lines, mutations and random Unicode; emitted lines are read back by the real dictionary parser.",
-    note="partial on one clause: faithfulness of the NOTES parser on well-formed lines (returns exactly what is written) is checked on generated lines against the generator's structure, not proved (the SKK line parser's is proved). "
+    note="full for the modelled parsers and converters; totality of the implementation (no panic where the model returns a value) is what the correspondence observes. "
          "Three genuine defects repaired (F11a, F11b, F18), one recorded (F19). Trusted: Coq kernel; translators gen_skk (rule shapes pinned, classes generated) and gen_skknotes (okurigana table generated; notes grammar and converter text hash-pinned to the hand models Skk/Notes.v, Skk/NotesConv.v); "
          "EUC-JP decoding, line splitting and HashSet de-duplication in the converters' main.rs are not modelled.",
     ref="6a/C18")
